@@ -43,7 +43,7 @@ def parse_vcf(path, samples):
     for r in recs:
         for s, c in zip(smp, r["calls"]):
             gt = c.get("GT")
-            if gt is None or gt[0] is None:
+            if gt is None or gt[0] is None or None in gt[0]:
                 continue
             ps = c.get("PS")
             key = (s, r["chrom"], r["pos"])
@@ -197,7 +197,8 @@ def run_case(ctx, case, d):
     U, UT = parse_vcf_text(Up, samples)
     Upy = parse_vcf(Up, samples)
     if hist.get("u_enc") != "hp" and Upy != U:
-        raise AssertionError("harness: text view and pysam view of U differ")
+        diff = [(k, Upy.get(k), U.get(k)) for k in sorted(set(Upy) | set(U), key=str) if Upy.get(k) != U.get(k)]
+        raise AssertionError(f"harness: text view and pysam view of U differ: {diff[:4]}")
     # ---- haplotagphase
     outp = os.path.join(d, "out.vcf")
     no_mav = bool(hist.get("no_mav"))
